@@ -80,12 +80,31 @@ def gen(seed, tier):
         icao = r.choice(ICAOS)
         lines = [g.f_df17(icao, me_ident(r.randint(1, 4), r.randint(0, 7), [r.choice([r.randint(1, 26), r.randint(48, 57), 32, 0, 63]) for _ in range(8)])) for _ in range(r.randint(1, 4))]
         cases.append(("C07-c%d" % i, "C", opts_str({"i": r.choice(["e", "x", "aAews"]), "u": -1, "o": "x"}), seg(0, lines)))
+    # CLI columns while other markers share the row: ACAS threat marker (BDS 3,0), Comm-B data, positions
+    for i in range(12 * rep):
+        icao = r.choice(ICAOS)
+        lines = [g.f_df11(icao, ca=5),
+                 g.f_df17(icao, me_ident(4, r.choice([1, 2, 3, 4, 5, 7]), [r.randint(1, 26) for _ in range(8)])),
+                 g.f_long(r.choice([20, 21]), icao, None, bds30(r.getrandbits(48) | r.choice([0, 1 << 47, 1 << 28, (1 << 47) | (1 << 28)]))),
+                 g.f_long(r.choice([20, 21]), icao, None, bds30(r.choice([1 << 47, 1 << 28]) | r.getrandbits(20))),
+                 g.f_df17(icao, g.me_airpos())]
+        if r.random() < 0.5:
+            lines.insert(2, lines.pop(1))
+        o = {"i": r.choice(["e", "x", "aAews"]), "u": -1, "o": "x"}
+        if r.random() < 0.5:
+            o["R"] = 1
+        if r.random() < 0.5:
+            o["U"] = 1
+        cases.append(("C07-t%d" % i, "C", opts_str(o), seg(0, lines)))
     return cases
 
 
 def oracle(parts, outcome, obs):
     if outcome.replace("+slow", "") != "ok":
         return "outcome %s" % outcome
+    if parts[1] == "C":
+        from props.common import check_last_frame_cells
+        return check_last_frame_cells(parts, obs, "".join(pyspec.case_opts(parts).get("i", "").split("+")))
     if parts[1] != "H":
         return None
     opts = pyspec.case_opts(parts)
